@@ -490,7 +490,9 @@ class BaseEvent(BaseModel, Generic[T_EventResultType]):
         await asyncio.wait_for(self.event_completed_signal.wait(), timeout=timeout or self.event_timeout)
 
         # Wait for each result to complete, but don't raise errors yet
-        for event_result in self.event_results.values():
+        # (iterate over a snapshot: awaiting a result yields to the event loop, and another bus that this event
+        # was forwarded to may add its own results meanwhile - "dictionary changed size during iteration")
+        for event_result in list(self.event_results.values()):
             try:
                 await event_result
             except Exception:
